@@ -127,13 +127,17 @@ Definition resume_cond (s : st) : bool :=
   resume_size (size s) (low s) &&
   match splits s with None => true | Some l => resume_chunks (len l) (lowc s) end.
 
-(* f :: r is the (non-empty) buffer deque *)
-Definition rnc (n : Z) (f : bytes) (r : list bytes) (s : st) : st * bytes :=
+(* f :: r is the (non-empty) buffer deque.  `consume` is the body of _read_nowait_chunk up to the
+   resume test; `rnc` adds `if <test>: self._protocol.resume_reading()`. *)
+Definition consume (n : Z) (f : bytes) (r : list bytes) (s : st) : st * bytes :=
   let '(d, b') := take_chunk n f r in
   let c' := cursor s + len d in
-  let s1 := mkSt b' (size s - len d) c' (option_map (drop_stale c') (splits s)) (eof s) (exc s) (total s)
-                 (low s) (high s) (lowc s) (highc s) (paused s) (pend s) (wt s)
-                 (fedlog s) (conslog s ++ d) (endlog s) in
+  (mkSt b' (size s - len d) c' (option_map (drop_stale c') (splits s)) (eof s) (exc s) (total s)
+        (low s) (high s) (lowc s) (highc s) (paused s) (pend s) (wt s)
+        (fedlog s) (conslog s ++ d) (endlog s), d).
+
+Definition rnc (n : Z) (f : bytes) (r : list bytes) (s : st) : st * bytes :=
+  let '(s1, d) := consume n f r s in
   (if resume_cond s1 then do_resume s1 else s1, d).
 
 Inductive status := SOk | SIndex | SFuel.
